@@ -11,4 +11,5 @@ func genAll(repo string) {
 	genGate(repo)
 	genBlock(repo)
 	genCopy(repo)
+	genNJ(repo)
 }
